@@ -16,7 +16,7 @@ Theorem c14_property_kv2_gen :
       (* nested layout: the tree of blocks the root rule gives is carried by the text, every element is in it exactly once,
          the exported one first, and the elements the reader registers are those of the flat document, whose references
          resolve to the graph *)
-      forall d, nest_doc g (is_root fold vtnames c false g) false = Some d ->
+      exists d, nest_doc g (is_root fold vtnames c false g) false = Some d /\
         parsen_text T o fold vtnames (rendern_doc T d) = Some d /\
         written_once d = true /\
         Permutation (unnest d) (flatten g) /\
@@ -25,7 +25,7 @@ Theorem c14_property_kv2_gen :
 Proof.
   intros T o fold vtnames c HT Ho Hv Hc g Hg Hdoc Hne Hreach. split.
   - now apply kv2_flat_graph_roundtrip_gen.
-  - intros d H.
+  - destruct (nest_total g fold vtnames c Hc Hg) as [d H]. exists d. split; [exact H|].
     pose proof (nest_ndoc_ok g T fold vtnames c Hc Hdoc d Hne H) as Hok.
     destruct (nest_is_flatten_permuted g fold vtnames c Hc Hg d Hne Hreach H) as [Hp Hr].
     repeat split.
@@ -39,8 +39,7 @@ Qed.
 (** satisfiable: the example graph (sharing, self reference, cycle through an inline block, stub, NULL) *)
 Lemma c14_property_kv2_example :
   kv2_tables_ok pinned_tables && kv2_opts_ok pinned_kv2_opts && vtnames_ok pinned_tables (fun s => s) pinned_vtnames &&
-  root_rule_ok pinned_rootcfg && graph_ok ex_graph && doc_ok pinned_tables pinned_vtnames (flatten ex_graph) &&
-  match nest_doc ex_graph (is_root (fun s => s) pinned_vtnames pinned_rootcfg false ex_graph) false with Some _ => true | None => false end = true /\
+  root_rule_ok pinned_rootcfg && graph_ok ex_graph && doc_ok pinned_tables pinned_vtnames (flatten ex_graph) = true /\
   (forall j, j < length ex_graph -> reach ex_graph j).
 Proof.
   split; [vm_compute; reflexivity|].
